@@ -170,6 +170,10 @@ def step (line : String) : String :=
       | none => "same"
       | some i => s!"differs:{i}"
     | _ => "bad-op"
+  | "RL" :: ops =>
+    match ops.foldl (fun (acc : Option RegList) o => acc.bind (fun rl => regOp rl o)) (some {}) with
+    | some rl => s!"{rl.len} {renderShort rl} {String.intercalate "," (rl.getRegisters.map short)}"
+    | none => "bad-op"
   | [k, idx, outcome] =>
     if k = "RN" ∨ k = "RT" ∨ k = "RE" ∨ k = "RF" then
       match idx.toNat?.bind (fun i => pool[i]?), parseOutcome outcome with
@@ -200,10 +204,6 @@ def step (line : String) : String :=
       String.intercalate ";" (evs.map renderEv) ++ " -> " ++ r ++ " M=" ++
         String.intercalate ";" (mp.map (fun p => s!"{p.1}={renderVal p.2}"))
     | _, _ => "bad-op"
-  | "RL" :: ops =>
-    match ops.foldl (fun (acc : Option RegList) o => acc.bind (fun rl => regOp rl o)) (some {}) with
-    | some rl => s!"{rl.len} {renderShort rl} {String.intercalate "," (rl.getRegisters.map short)}"
-    | none => "bad-op"
   | _ => "bad-op"
 
 partial def loop (h : IO.FS.Stream) (out : IO.FS.Stream) : IO Unit := do
